@@ -82,7 +82,7 @@ func genC10(t *rapid.T) c10Case {
 	n := rapid.IntRange(3, 8).Draw(t, "ntemplates")
 	for i := 0; i < n; i++ {
 		path := fmt.Sprintf("/t%d.jet", i)
-		kind := rapid.SampledFrom([]string{"ordinary", "failing", "failing", "probing", "probing", "embprobe", "returning", "nested-ranges", "trying", "publishing"}).Draw(t, "kind")
+		kind := rapid.SampledFrom([]string{"ordinary", "failing", "failing", "probing", "probing", "embprobe", "returning", "nested-ranges", "trying", "publishing", "relinclude", "positional"}).Draw(t, "kind")
 		var body []*mj.Node
 		rt := mj.Print(mj.Call("rtprobe"))
 		switch kind {
@@ -106,6 +106,28 @@ func genC10(t *rapid.T) c10Case {
 			// try bodies that succeed: their buffered output is handed to the destination (which may fail half-way)
 			body = []*mj.Node{{K: "try", Body: []*mj.Node{mj.Text("tried:"), mj.Print(mj.Dot()), mj.Text(":0123456789abcdefghijklmnopqrstuvwxyz"),
 				{K: "try", Body: []*mj.Node{mj.Text("(inner "), mj.Print(mj.Var("xs")), mj.Text(")")}}}, HasCatch: rapid.Bool().Draw(t, "tryCatch"), Catch: []*mj.Node{mj.Text("(unreachable)")}}, mj.Text("after-try")}
+		case "relinclude":
+			// a page in a directory of its own that includes "row.jet": the same spelling means another file for every page
+			dir := fmt.Sprintf("/dir%d", i)
+			g.p.Files = append(g.p.Files,
+				&mj.File{Path: dir + "/page.jet", Body: []*mj.Node{mj.Text("page" + dir + ":"), {K: "include", E: mj.Str("row.jet")}, {K: "include", E: mj.Str("./row.jet")}}},
+				&mj.File{Path: dir + "/row.jet", Body: []*mj.Node{mj.Text("ROW-OF-" + dir)}})
+			body = []*mj.Node{{K: "include", E: mj.Str(dir + "/page.jet")}}
+		case "positional":
+			// pages that share a layout whose yield passes its arguments by position and override the yielded
+			// block with parameters of their own (what executing one page does to the layout must not show in another)
+			hasLay := false
+			for _, f := range g.p.Files {
+				hasLay = hasLay || f.Path == "/lay/pos.jet"
+			}
+			if !hasLay {
+				g.p.Files = append(g.p.Files, &mj.File{Path: "/lay/pos.jet", Body: []*mj.Node{mj.Text("<lay:"), {K: "fail", Src: `yield row("A", "B")`, Class: "not-modelled"}, mj.Text(">"),
+					{K: "block", Name: "row", Params: []mj.Param{{Name: "first", E: mj.Str("f")}, {Name: "second", E: mj.Str("s")}}, Body: []*mj.Node{mj.Text("[default row]")}}}})
+			}
+			names := [][2]string{{"pa", "pb"}, {"pb", "pa"}, {"first", "second"}, {"second", "first"}}[i%4]
+			g.p.Files = append(g.p.Files, &mj.File{Path: fmt.Sprintf("/pos/p%d.jet", i), Extends: "/lay/pos.jet", Body: []*mj.Node{
+				{K: "block", Name: "row", Params: []mj.Param{{Name: names[0], E: mj.Str("d0")}, {Name: names[1], E: mj.Str("d1")}}, Body: []*mj.Node{mj.Text("[row of p:"), mj.Print(mj.Var(names[0])), mj.Text("|"), mj.Print(mj.Var(names[1])), mj.Text("]")}}}})
+			body = []*mj.Node{{K: "include", E: mj.Str(fmt.Sprintf("/pos/p%d.jet", i))}}
 		case "publishing":
 			// a function that declares a variable through the Runtime API (LetGlobal): visible to the rest of
 			// this execution only, whatever VarMap (nil or not) the caller passed
@@ -424,7 +446,7 @@ func judgeC10(c c10Case) (v core.Verdict) {
 
 func TestC10(t *testing.T) {
 	core.Run(t, "C10",
-		"histories of 2-15 Execute calls (template, nil/string/map data, nil or non-nil VarMap, destination that works or fails after 1/7/30 bytes) on one goroutine over a pool of 3-8 generated templates: ordinary, failing (failure of any of 24 kinds below range / if-let / block / yield-with-content / yielded block body / include with context / inner try, uncaught or caught), trying (successful try bodies, nested), returning from a range (slice, array, 1- and 4-entry maps), nested ranges over the same value, publishing (a function calling Runtime.LetGlobal) and probing (top-level yield content, '.', isset of names other templates declare or publish, a range, a range-else over an empty map), each call on one of two Sets over the same sources (default escaper / escaper off; data with HTML-special bytes); oracle = every call reproduces byte for byte (errors: nil-ness and position) what the same call renders right after the object pools were emptied by two forced GCs, while the history runs with GOMAXPROCS(1) and GC off so the pooled Runtime is reused (pointer observed through a probe function); structural hash of every Template before/after; reference interpreter as second opinion; non-trivial = a failing execution followed by a probing one on the same Runtime pointer",
+		"histories of 2-15 Execute calls (template, nil/string/map data, nil or non-nil VarMap, destination that works or fails after 1/7/30 bytes) on one goroutine over a pool of 3-8 generated templates: ordinary, failing (failure of any of 24 kinds below range / if-let / block / yield-with-content / yielded block body / include with context / inner try, uncaught or caught), trying (successful try bodies, nested), returning from a range (slice, array, 1- and 4-entry maps), nested ranges over the same value, publishing (a function calling Runtime.LetGlobal), pages in directories of their own including the same relative name, pages overriding a block that a shared layout yields with positional arguments, and probing (top-level yield content, '.', isset of names other templates declare or publish, a range, a range-else over an empty map), each call on one of two Sets over the same sources (default escaper / escaper off; data with HTML-special bytes); oracle = every call reproduces byte for byte (errors: nil-ness and position) what the same call renders right after the object pools were emptied by two forced GCs, while the history runs with GOMAXPROCS(1) and GC off so the pooled Runtime is reused (pointer observed through a probe function); structural hash of every Template before/after; reference interpreter as second opinion; non-trivial = a failing execution followed by a probing one on the same Runtime pointer",
 		genC10, judgeC10)
 }
 
